@@ -163,6 +163,9 @@ func genConnScript(rng *rand.Rand, jg *JGen, tag string, maxCalls int, allowFail
 			cs.Calls = append(cs.Calls, GenCall{Method: "org.varlink.service.Nope" + id, Flags: fl})
 		case k < 17:
 			cs.Calls = append(cs.Calls, GenCall{Method: "org.unknown.iface" + tag + ".M", Flags: fl, Script: genScript(rng, jg, id, false)})
+		case k < 18 && rng.Intn(2) == 0:
+			// frames without a method member: answered like a call without method
+			cs.Calls = append(cs.Calls, GenCall{Raw: c04NoMethod[rng.Intn(len(c04NoMethod))]})
 		case k < 18:
 			cs.Calls = append(cs.Calls, GenCall{Method: []string{"nodots", "", ".x", "."}[rng.Intn(4)], Flags: fl, Script: genScript(rng, jg, id, false)})
 		default:
@@ -223,6 +226,11 @@ func c01Round(r *fw.Run, g *Rig, prop string, cc *c01Case, exact bool) int {
 		}(i, data, seg, end)
 	}
 	wg.Wait()
+	if g.tainted {
+		// an earlier round already showed that this service does not release its connections: waiting again proves nothing
+		g.Log.Take()
+		return 0
+	}
 	// Barrier: the accept queue is FIFO and the accept loop counts a connection before it accepts the
 	// next one, so once a connection made now has been served, every connection of this round (also
 	// those the client closed before they were accepted) has been accepted and counted.
@@ -302,6 +310,7 @@ func c01Round(r *fw.Run, g *Rig, prop string, cc *c01Case, exact bool) int {
 		}
 	}
 	if !idle {
+		g.tainted = true
 		viol++
 		r.Violation(prop+" not-released", fmt.Sprintf("all clients are gone but the service still counts %d active connections after 20 s", g.Svc.VerifActive()), cc)
 	}
@@ -348,6 +357,9 @@ func runC01(r *fw.Run) {
 				// handler failures end the connection with unread pipelined calls: unix only (DESIGN C01)
 				cs := genConnScript(rng, jg, fmt.Sprintf("c%d", tagN), 6, cf.tr != "tcp")
 				cc.Conns = append(cc.Conns, cs)
+			}
+			if r.ViolationCount() > 12 || g.tainted {
+				break
 			}
 			r.Journal(0, cc)
 			c01Round(r, g, "C01", cc, true)
